@@ -28,6 +28,9 @@ pub struct Cfg {
     pub props: BTreeSet<&'static str>,
     /// nodes whose advertise address is an IPv4-mapped IPv6 address (::ffff:127.0.0.1)
     pub mapped_addr_nodes: Vec<usize>,
+    /// nodes that use node 0's node id (and the same generation): distinct members that differ by
+    /// their advertised address only
+    pub same_node_id_as_0: Vec<usize>,
 }
 
 impl Cfg {
@@ -46,6 +49,7 @@ impl Cfg {
             seeds: vec![vec![]; n],
             props: props.iter().cloned().collect(),
             mapped_addr_nodes: vec![],
+            same_node_id_as_0: vec![],
         }
     }
     pub fn has(&self, p: &str) -> bool {
@@ -195,6 +199,9 @@ fn node_id_cfg(cfg: &Cfg, i: usize, generation: u64) -> Id {
     let mut id = node_id(i, generation);
     if cfg.mapped_addr_nodes.contains(&i) {
         id.addr = format!("[::ffff:127.0.0.1]:{}", 10_000 + i).parse().unwrap();
+    }
+    if cfg.same_node_id_as_0.contains(&i) {
+        id.node_id = "n0".into();
     }
     id
 }
